@@ -1,5 +1,5 @@
 """C02 Item order inside the addressed story follows the MOS protocol."""
-from .. import runner, spec
+from .. import runner, spec, gen
 from ..harnesses import HItem
 from ..monitors import OrderMonitor
 from .common import mixed_part, live_part
@@ -29,12 +29,15 @@ def run(tier):
             {'label': 'items-only-pool5-cap4-L2', 'harness': HItem(pool=5, cap=4, max_list=2, patterns=('plain',)), 'monitors': mon},
             {'label': 'interleaved-pool4-cap3-L2', 'harness': HItem(pool=4, cap=3, max_list=2, patterns=('p-between', 'foreign'),
                                                                positions=('second',)), 'monitors': mon},
+            {'label': 'exotic-ids', 'harness': HItem(pool=gen.EXOTIC_IDS[:4], cap=3, max_list=2, patterns=('plain',), positions=('second',)),
+             'monitors': mon},
         ]
     else:
         parts = [
             {'label': 'items-only-pool6-cap5-L2', 'harness': HItem(pool=6, cap=5, max_list=2, patterns=('plain',)), 'monitors': mon},
             {'label': 'items-only-pool5-cap4-L3', 'harness': HItem(pool=5, cap=4, max_list=3, patterns=('plain',)), 'monitors': mon},
-            {'label': 'interleaved-pool5-cap4-L2', 'harness': HItem(pool=5, cap=4, max_list=2, patterns=('p-between', 'foreign')), 'monitors': mon},
+            {'label': 'interleaved-pool5-cap4-L2', 'harness': HItem(pool=5, cap=4, max_list=2, patterns=('p-between',), positions=('second',)), 'monitors': mon},
+            {'label': 'foreign-pool4-cap4-L2', 'harness': HItem(pool=4, cap=4, max_list=2, patterns=('foreign',), positions=('first',)), 'monitors': mon},
             {'label': 'pretty-messages', 'harness': HItem(pool=4, cap=3, max_list=2, pretty_msgs=True), 'monitors': mon},
         ]
     parts.append(mixed_part(tier, mon))
